@@ -25,6 +25,8 @@ CLAUSES = [
                      "l": [{18446744073709551615: "in list"}], "v": 18446744073709551615})]),
     # known finding D13: key collision under Python equality
     case([{"path": "nodes/n.yml", "content": {"parameters": G.M([["m", G.M([[G.I(1), "a"], [True, "b"], [G.I(0), "c"], ["k", "d"], [False, "e"]])]])}}]),
+    # known finding D17: a layer list left in the rendered data reaches unreachable!() in as_py_obj
+    case([node_file({"a": {"x": True}, "===a": {"x": False}})]),
     # failures surface as ValueError
     case([node_file({"boom": "${no:such}"})]),
     case([node_file({}, classes=["missing"])]),
@@ -222,6 +224,25 @@ class C19(Prop):
         return t
 
     def matches_known(self, finding, req, impl, reply):
+        if finding.get("id") == "D17":
+            def keys(x):
+                if isinstance(x, dict) and "m" in x:
+                    for k, v in x["m"]:
+                        yield k
+                        yield from keys(v)
+                elif isinstance(x, list):
+                    for v in x:
+                        yield from keys(v)
+            def split(k):
+                n = 0
+                while n < len(k) and k[n] in "=~":
+                    n += 1
+                return n, k[n:]
+            ks = [split(k) for f in req["files"] for k in keys((f.get("content") or {}).get("parameters")) if isinstance(k, str)]
+            names = [b for _, b in ks]
+            panics = "PanicException" in str(((impl or {}).get("py") or {}).get("nodes"))
+            model_vl = "pyVl" in str(((reply or {}).get("model") or {}).get("nodes"))
+            return panics and model_vl and any(n >= 3 and names.count(b) >= 2 for n, b in ks)
         if finding.get("id") != "D13":
             return False
         return any(py_keys_collide(f.get("content", {}).get("parameters")) for f in req["files"])
